@@ -102,7 +102,7 @@ pub fn render(rng: &mut Rng, m: &AManifest, noise: bool) -> Vec<(String, Vec<u8>
         let mut s = String::new();
         for st in stmts {
             if noise && rng.chance(1, 10) { s.push('\n'); }
-            if noise && rng.chance(1, 15) { s.push_str("# noise comment $x ${ | :\n"); }
+            if noise && rng.chance(1, 15) { s.push_str(*rng.pick(&["# noise comment $x ${ | :\n", "# costs 5 US$\n", "# escaped $$\n", "#$\n", "#\n"])); }
             match st {
                 AStmt::Blank => s.push('\n'),
                 AStmt::Comment(c) => { s.push('#'); s.push_str(c); s.push('\n'); }
@@ -197,7 +197,7 @@ pub fn gen_manifest(rng: &mut Rng, dup_outputs: bool) -> AManifest {
                 let mut vars = vec![];
                 let mut refs = filevars.clone(); refs.extend(["in".into(), "out".into(), "in_newline".into(), "out_newline".into(), "bvar".into()]);
                 vars.push(("command".to_string(), { let mut v = vec![Tok::Lit("cmd ".into())]; v.extend(gen_val(rng, &refs, false)); v }));
-                if rng.chance(1, 3) { vars.push(("description".into(), gen_val(rng, &refs, false))); }
+                if rng.chance(1, 3) { vars.push(("description".into(), if rng.chance(1, 6) { vec![] } else { gen_val(rng, &refs, false) })); }
                 if rng.chance(1, 4) { vars.push(("depfile".into(), vec![Tok::Var("out".into()), Tok::Lit(".d".into())])); }
                 if rng.chance(1, 4) { vars.push(("deps".into(), vec![Tok::Lit((*rng.pick(&["gcc", "msvc", "gcc", "msvc", "bogus"])).into())])); }
                 if rng.chance(1, 5) { vars.push(("rspfile".into(), vec![Tok::Var("out".into()), Tok::Lit(".rsp".into())])); if !rng.chance(1, 8) { vars.push(("rspfile_content".into(), gen_val(rng, &refs, false))); } }
@@ -230,7 +230,9 @@ pub fn gen_manifest(rng: &mut Rng, dup_outputs: bool) -> AManifest {
                         b.ins[k].push(p);
                     }
                 }
-                if rng.chance(1, 2) { b.vars.push(("bvar".into(), gen_val(rng, &filevars, false))); }
+                if rng.chance(1, 2) { b.vars.push(("bvar".into(), if rng.chance(1, 6) { vec![] } else { gen_val(rng, &filevars, false) })); }
+                if rng.chance(1, 10) && !filevars.is_empty() { let k = filevars[rng.below(filevars.len())].clone(); if k.chars().all(|c| c.is_ascii_alphanumeric()) { b.vars.push((k, vec![])); } }
+                if rng.chance(1, 12) { b.vars.push((rng.pick(&["description", "pool", "depfile"]).to_string(), vec![])); }
                 if rng.chance(1, 6) { b.vars.push(("command".into(), gen_val(rng, &["bvar".to_string(), "in".to_string(), "x".to_string()], false))); }
                 if rng.chance(1, 8) { b.vars.push(("pool".into(), vec![Tok::Lit("p0".into())])); }
                 if rng.chance(1, 12) { b.vars.push(("x".into(), vec![Tok::Lit("shadow".into())])); }
@@ -247,6 +249,11 @@ pub fn gen_manifest(rng: &mut Rng, dup_outputs: bool) -> AManifest {
             m.files[0].1.push(AStmt::Include(fidx, sub));
         }
         m.files[fidx].1.push(st);
+        if fidx > 0 && rng.chance(1, 25) {
+            // the same file read a second time
+            let sub = rng.chance(1, 2);
+            m.files[0].1.push(AStmt::Include(fidx, sub));
+        }
         // statements after an include in the main file may refer to things defined in the sub
     }
     m
